@@ -66,3 +66,21 @@ Example ex_flush :
   step 4 6 o (OSkip 2 true) =
     (mkobuf (Some (mkfbuf KBio (mkfile [1;2;3]%N 2 false) 1)) [] false, RUnit).
 Proof. vm_compute. split; reflexivity. Qed.
+
+(* faults: BytesIO holding 5 bytes (STRBUF_LIMIT 4, overflow 6), append 2 more;
+   TemporaryFile() raises: the exception propagates and all 7 bytes are queued *)
+Example ex_fault_ctor :
+  let o := exec 4 6 o_new [OAppend [1;2;3;4;5]%N] in
+  rep_of o = Bio (mkfile [1;2;3;4;5]%N 0 false) 5 /\
+  step_f (FCtor KTmp) 4 6 o (OAppend [6;7]%N) =
+    (mkobuf (Some (mkfbuf KBio (mkfile [1;2;3;4;5;6;7]%N 0 false) 7)) [] false, RExn OSFault) /\
+  (* plain bytes: nothing at all happens *)
+  step_f (FCtor KBio) 4 6 (exec 4 6 o_new [OAppend [1;2]%N]) (OGet 1 true) =
+    (exec 4 6 o_new [OAppend [1;2]%N], RExn OSFault).
+Proof. vm_compute. repeat split. Qed.
+
+(* the same history with the copy loop's write failing: the BytesIO is left at its end *)
+Example ex_fault_copy_write :
+  step_f FCopyWrite 4 6 (exec 4 6 o_new [OAppend [1;2;3;4;5]%N]) (OAppend [6;7]%N) =
+    (mkobuf (Some (mkfbuf KBio (mkfile [1;2;3;4;5;6;7]%N 7 false) 7)) [] false, RExn OSFault).
+Proof. vm_compute. reflexivity. Qed.
